@@ -2,4 +2,4 @@ SPECIFICATION Spec
 CONSTANTS
   Shape = "ideal"
   Emit = TRUE
-INVARIANTS Reachable FamilyOfStage Reproducible
+INVARIANTS Reachable FamilyOfStage Reproducible CausesKept
